@@ -383,7 +383,12 @@ class Tensor:
         visit_node(self)
 
         # Go one tensor at a time and apply the chain rule to get its gradient
-        self.grad = grad
+        if not self.matches_shape(grad):
+            raise RuntimeError(f"Attempt to assign grad ({grad.shape}) to  a Tensor ({self.shape}) that has a different shape")
+        # the root gets its own buffer (same dtype as its data, never the caller's array);
+        # a root that is a leaf accumulates like any other leaf
+        seed = grad.data.astype(self.data.dtype)
+        self._grad = self._grad + seed if (self.is_leaf and self._grad is not None) else seed
         for i, node in enumerate(reversed(ordered_nodes)):
             if node.grad_fn is not None:
                 #print(node.grad_fn)
